@@ -6,7 +6,7 @@ Nothing is applied to /repo."""
 import json, os, subprocess, sys, time
 
 WT = "/tmp/seed/M"
-EXTRA = {"C13-m5": ["C13", "C08"], "C01-m5": ["C01", "C15"], "C02-m3": ["C02", "C12"], "C12-m2": ["C12", "C08"], "C13-m1": ["C13", "C08"], "D1": ["C04"], "D2": ["C04"], "D3": ["C08"], "D4": ["C19"], "D5": ["C01", "C10"], "D6": ["C11"]}
+EXTRA = {"C02-m8": ["C02", "C12"], "C13-m5": ["C13", "C08"], "C01-m5": ["C01", "C15"], "C02-m3": ["C02", "C12"], "C12-m2": ["C12", "C08"], "C13-m1": ["C13", "C08"], "D1": ["C04"], "D2": ["C04"], "D3": ["C08"], "D4": ["C19"], "D5": ["C01", "C10"], "D6": ["C11"]}
 
 def sh(cmd, cwd=None, timeout=3600):
     p = subprocess.run(cmd, cwd=cwd, shell=True, stdout=subprocess.PIPE, stderr=subprocess.STDOUT, timeout=timeout)
